@@ -454,6 +454,70 @@ def rule_scope_order(prog):
                         ("site", "position"))
     if n_pos < 8:
         out.missing("scoped lookups of raw identifier tokens in feature handlers (found %d)" % n_pos)
+    # (6b) index origin: a token index found by searching a slice (`X.iter().position(..)`, `X.iter().enumerate()`) is an index *into X*.
+    #      Where it is handed to a function together with a token slice S (which that function indexes), X and S are the same slice -
+    #      an index into `tokens[p.range]` says nothing about `tokens`
+    def slice_sig(e):
+        e = hir.strip_ref(e)
+        while e.get("k") == "MethodCall" and e["m"] in ("iter", "as_slice", "as_ref", "into_iter", "clone", "borrow", "deref") and not e["args"]:
+            e = hir.strip_ref(e["recv"])
+        if e.get("k") == "Index":
+            idx = hir.strip(e["idx"])
+            rsig = "[%s]" % ",".join(sorted((place(hir.strip_ref(f["e"])) or hir.callee_display(hir.strip(f["e"])) or "?") for f in idx.get("fields", [])) or ["?"])
+            b_ = slice_sig(e["base"])
+            return (b_[0] + rsig) if b_ else None
+        pl = place(e)
+        return (pl,) if pl else None
+    n_idx = 0
+    for b in feature_bodies(prog):
+        bc = b["_crate"]
+        fed = {}    # binding id -> slice signature of the searched slice
+        for mc, parents in hir.walk(b["body"]):
+            if mc.get("k") != "MethodCall" or mc["m"] not in ("position", "rposition", "enumerate"):
+                continue
+            if "Token" not in bc.tstr(hir.strip(mc["recv"])["t"]):
+                continue
+            sig = slice_sig(mc["recv"])
+            if sig is None:
+                continue
+            # bindings fed by this search: closure parameters of the adaptors applied to it, patterns it is matched / bound with
+            chain = list(parents)
+            child = mc
+            for pr in reversed(chain):
+                if pr.get("k") == "MethodCall" and any(x is child for x in hir.nodes(pr["recv"])):
+                    for a_ in pr["args"]:
+                        a_ = hir.strip(a_)
+                        if a_.get("k") == "Closure":
+                            for q in a_["params"]:
+                                for bd in hir.pat_bindings(q):
+                                    if "usize" in bc.tstr(bd["bt"]):
+                                        fed[bd["id"]] = sig
+                    child = pr
+                elif pr.get("k") in ("LetExpr", "Let") and pr.get("init") is not None and any(x is mc for x in hir.nodes(pr["init"])):
+                    for bd in hir.pat_bindings(pr["pat"]):
+                        if "usize" in bc.tstr(bd["bt"]):
+                            fed[bd["id"]] = sig
+                    break
+                elif pr.get("k") in ("Block", "Closure"):
+                    break
+        if not fed:
+            continue
+        for call in hir.nodes(b["body"], "Call"):
+            hb = hir.local_callee_body(prog, call)
+            if hb is None or hb["_crate"] is not bc:
+                continue
+            idx_args = [a_ for a_ in call["args"] if (hir.path_local(hir.strip_ref(a_)) or {}).get("id") in fed]
+            sl_args = [a_ for a_ in call["args"] if "[spl_frontend::tokens::Token]" in bc.tstr(a_["t"]).replace("tokens::Token", "spl_frontend::tokens::Token").replace("spl_frontend::spl_frontend::", "spl_frontend::")
+                       or "Vec<" in bc.tstr(a_["t"]) and "Token" in bc.tstr(a_["t"])]
+            if not idx_args or not sl_args:
+                continue
+            want = fed[hir.path_local(hir.strip_ref(idx_args[0]))["id"]]
+            got = slice_sig(sl_args[0])
+            n_idx += 1
+            n_sites += 1
+            out.add(b["d"], "a token index is used with the slice it was found in", None if got is None else got == want, bc.loc(call["sp"]),
+                    "the index was found in `%s` but is handed on together with `%s`: it is off by the start of the searched slice - wrong for "
+                    "every declaration but the first" % ("".join(want).split("#")[0], "".join(got or ("?",)).split("#")[0]), ("site", "position"))
     # (7) preempt: the binding of the cursor identifier is decided by the scoped lookup, not by comparing its text with the name of the
     #     enclosing procedure first (a variable named like its procedure is a legal local that shadows the procedure)
     for b in feature_bodies(prog):
@@ -486,6 +550,20 @@ def rule_scope_order(prog):
     if n_sites < 5:
         out.missing("LookupTable lookups in feature handlers (found %d)" % n_sites)
     return out
+
+
+def _fmt_impl_has_helper(prog, c, helper_ps, node):
+    """does `impl Format for <node>` (one level of local helpers deep) apply a comment helper or print a raw token slice?"""
+    for b in c.bodies:
+        if not (b["p"].startswith("lsp4spl::features::formatting") and b["name"] == "fmt" and "impl_self" in b):
+            continue
+        st = c.ty(b["impl_self"])
+        if not (st["k"] == "adt" and last(st["p"]) == node):
+            continue
+        for x in hir.nodes_deep(prog, b["body"], 1, crate=c):
+            if x.get("k") == "Call" and (hir.callee(x) or "") in helper_ps:
+                return True
+    return False
 
 
 def _value_sources(prog, e, crate, depth=2):
@@ -1249,6 +1327,77 @@ def rule_comment_pairing(prog):
                     "`%s` has %d own tokens (%s); its parser skips comments in front of each of them, but the formatter only "
                     "re-attaches the comments in front of the first token: every other comment inside is lost"
                     % (label, len(toks), ", ".join(toks)), (label.split("::")[0],))
+    # the helpers themselves: which comments of the slice are re-attached depends on the token kind (and, for the leading form, on the
+    # position) only.  A further selecting adaptor whose closure does not test TokenType::Comment drops comments by their text
+    SELECT = ("filter", "filter_map", "skip_while", "take_while", "map_while", "skip", "take", "step_by", "dedup", "dedup_by_key", "retain")
+    for hp in sorted(helper_ps):
+        hb = prog.body(hp)
+        if hb is None:
+            continue
+        bad_sel = None
+        for mc in hir.nodes(hb["body"], "MethodCall"):
+            if mc["m"] not in SELECT:
+                continue
+            tests_kind = False
+            for a_ in mc["args"]:
+                for x in hir.nodes_deep(prog, a_, 1, crate=c):
+                    pats = [q["pat"] for q in x["arms"]] if x.get("k") == "Match" else [x["pat"]] if x.get("k") == "LetExpr" else []
+                    if any("spl_frontend::tokens::TokenType::Comment" in hir.pat_variants_all(pt) for pt in pats):
+                        tests_kind = True
+            if not tests_kind:
+                bad_sel = mc
+        seen += 1
+        out.add(hb["d"], "which comments a helper re-attaches depends on token kind and position only", bad_sel is None,
+                c.loc((bad_sel or hb)["sp"]), "`.%s(..)` in the comment helper selects by something other than the token kind (e.g. the comment's "
+                "text): a comment is dropped although it stands where it must be kept - two comments with the same text are enough"
+                % (bad_sel["m"] if bad_sel else ""), ("helper",))
+    # `all` is sound only for nodes whose printed children print no comments themselves: applied to a node whose text was rendered by
+    # children that re-attach their own comments (or print raw token slices), every inner comment is printed twice - and again on the
+    # next formatting run, so the formatter is not idempotent either
+    for b in c.bodies:
+        if not b["p"].startswith("lsp4spl::features::formatting") or b["p"] in helper_ps or "/tests" in c.file_of(b["sp"]) or b["k"] == "closure":
+            continue
+        for n in helper_calls(b["body"]):
+            if roles.classify_comment_call(prog, n) != "all":
+                continue
+            first = hir.strip(n["args"][0])
+            # where was the text rendered?  the expression itself, or the lets it refers to
+            roots = [first]
+            pl_ = hir.path_local(first)
+            if pl_:
+                for l_ in hir.nodes(b["body"], "Let"):
+                    if l_["pat"].get("k") == "Binding" and l_["pat"]["id"] == pl_["id"] and l_.get("init") is not None:
+                        roots.append(l_["init"])
+                        # one more level (e.g. `let stmts = ..; let stmt = format!(.. stmts ..)`)
+                        for y in hir.nodes(l_["init"]):
+                            pl2 = hir.path_local(y)
+                            if pl2:
+                                for l2 in hir.nodes(b["body"], "Let"):
+                                    if l2["pat"].get("k") == "Binding" and l2["pat"]["id"] == pl2["id"] and l2.get("init") is not None:
+                                        roots.append(l2["init"])
+            inner_helper = None
+            for r_ in roots:
+                for x in hir.nodes_deep(prog, r_, 3, {b["p"]}, crate=c):
+                    if x is n:
+                        continue
+                    if x.get("k") == "Call" and (hir.callee(x) or "") in helper_ps:
+                        inner_helper = x
+                    if x.get("k") == "MethodCall" and x["m"] == "fmt":
+                        # a child printed through its Format impl (possibly behind Reference<..> / Box / Option)
+                        t = hir.peel(c, x["recv"]["t"])
+                        for a_ in x["recv"].get("adj") or []:
+                            t = hir.peel(c, a_["to"])
+                        hops = 0
+                        while t["k"] == "adt" and last(t["p"]) in ("Reference", "Box", "Option") and t.get("a") and hops < 4:
+                            t = hir.peel(c, int(t["a"][0]))
+                            hops += 1
+                        if t["k"] == "adt" and _fmt_impl_has_helper(prog, c, helper_ps, last(t["p"])):
+                            inner_helper = x
+            seen += 1
+            out.add(b["d"], "the all-comments helper wraps only text whose parts print no comments themselves", inner_helper is None,
+                    c.loc(n["sp"]), "the text handed to the all-comments helper was rendered by children that re-attach their own comments: "
+                    "every comment inside is printed a second time in front of the node (and once more on every further formatting run)",
+                    ("once", "nested"))
     # exactly once: a variant that is printed as its raw token slice (AstInfo::fmt prints every token, comments included) must not be
     # wrapped in a comment helper on top of that - its comments would be printed twice
     raw_variants = {}
